@@ -349,3 +349,185 @@ Section Rooted.
     - exfalso. apply not_below_root. specialize (Hr r Hi). rewrite Hp in Hr. exact Hr.
   Qed.
 End Rooted.
+
+(* ================================================================== the TYPE law *)
+Lemma tagged_eta v : tagged (pv_tag v) (pv_bytes v) = v.
+Proof. destruct v; reflexivity. Qed.
+
+Lemma decode_reader w b : decode_path w (of_reader b) = tagged w b.
+Proof. destruct w; reflexivity. Qed.
+
+Lemma dec_bytes wp b : pv_bytes (dec wp b) = b.
+Proof. unfold dec. now rewrite decode_reader. Qed.
+
+Lemma dec_tag wp b : pv_tag (dec wp b) = pv_tag wp.
+Proof. unfold dec. now rewrite decode_reader. Qed.
+
+Lemma ptag_eqb_refl g : ptag_eqb g g = true.
+Proof. destruct g; reflexivity. Qed.
+
+Lemma peqb_dec wp b : peqb (dec wp b) wp = beqb b (pv_bytes wp).
+Proof. unfold peqb. now rewrite dec_tag, dec_bytes, ptag_eqb_refl. Qed.
+
+(* ---------------------------------------------------------------- erasure: the typed transcription IS Emitter.emit *)
+Lemma erase_tsub_moved src dest t :
+  map erase_ev (tsub_moved src dest t) = sub_moved (pv_bytes src) (pv_bytes dest) t.
+Proof.
+  unfold tsub_moved, sub_moved, sub_moved_events, pwalk.
+  induction (walk (pv_bytes dest) t) as [|[[r ds] fs] l IH]; [reflexivity|].
+  cbn [map flat_map]. rewrite !map_app. rewrite IH. f_equal.
+  unfold moved_step. rewrite !map_app, !map_map. f_equal; apply map_ext; intros a;
+    unfold erase_ev, renamed, preplace1, pnonempty, pjoin, tagged; cbn;
+    destruct (pv_bytes src); reflexivity.
+Qed.
+
+Lemma erase_tsub_created src t :
+  map erase_ev (tsub_created src t) = sub_created (pv_bytes src) t.
+Proof.
+  unfold tsub_created, sub_created, sub_created_events, pwalk.
+  induction (walk (pv_bytes src) t) as [|[[r ds] fs] l IH]; [reflexivity|].
+  cbn [map flat_map]. rewrite !map_app. rewrite IH. f_equal.
+  unfold created_step. rewrite !map_app, !map_map. f_equal; apply map_ext; intros a; reflexivity.
+Qed.
+
+Lemma erase_tmk wp c a b : erase_ev (tmk c (dec wp a) (dec wp b)) = mk c a b.
+Proof. unfold erase_ev, tmk, mk. cbn. now rewrite !dec_bytes. Qed.
+Lemma erase_tmk_l wp c a : erase_ev (tmk c (dec wp a) pempty) = mk c a [].
+Proof. unfold erase_ev, tmk, mk. cbn. now rewrite !dec_bytes. Qed.
+Lemma erase_tmk_r wp c a : erase_ev (tmk c pempty (dec wp a)) = mk c [] a.
+Proof. unfold erase_ev, tmk, mk. cbn. now rewrite !dec_bytes. Qed.
+Lemma erase_tparent wp a : erase_ev (tparent_modified (dec wp a)) = parent_modified a.
+Proof. unfold erase_ev, tparent_modified, parent_modified, tmk, mk, pdirname. cbn. now rewrite !dec_bytes. Qed.
+
+Theorem typed_emit_erase full rec wp content it :
+  erase (typed_emit full rec wp content it) = emit full rec (pv_bytes wp) content it.
+Proof.
+  destruct it as [x | f t]; cbn [typed_emit emit].
+  - unfold temit_single, emit_single. rewrite peqb_dec.
+    repeat match goal with
+           | |- context [if ?b then _ else _] => destruct b
+           end;
+    unfold erase; cbn [fst snd map];
+    rewrite ?erase_tmk_l, ?erase_tmk_r, ?erase_tparent, ?erase_tsub_created, ?dec_bytes; reflexivity.
+  - unfold temit_pair, emit_pair, erase. cbn [fst snd map].
+    rewrite erase_tmk, !erase_tparent. f_equal. f_equal. f_equal. f_equal.
+    destruct (is_directory (r_mask f) && rec); [|reflexivity].
+    now rewrite erase_tsub_moved, !dec_bytes.
+Qed.
+
+(* ---------------------------------------------------------------- tags *)
+Definition tev_ok (w : ptag) (e : tevent) : Prop := tag_ok w (te_src e) /\ tag_ok w (te_dest e).
+
+Lemma tag_ok_tag w v : pv_tag v = w -> tag_ok w v.
+Proof. intros H _. exact H. Qed.
+
+Lemma tag_ok_empty w : tag_ok w pempty.
+Proof. intros H. now elim H. Qed.
+
+Lemma pwalk_tags top t r ds fs :
+  In (r, ds, fs) (pwalk top t) ->
+  pv_tag r = pv_tag top /\ (forall d, In d ds -> pv_tag d = pv_tag top) /\ (forall f, In f fs -> pv_tag f = pv_tag top).
+Proof.
+  unfold pwalk. intros H. apply in_map_iff in H as [[[r0 ds0] fs0] [E _]]. inversion E; subst.
+  split; [reflexivity|]. split; intros x Hx; apply in_map_iff in Hx as [y [<- _]]; reflexivity.
+Qed.
+
+Lemma tsub_moved_tags w src dest t :
+  pv_tag dest = w -> forall e, In e (tsub_moved src dest t) -> tev_ok w e.
+Proof.
+  intros Hd e Hin. unfold tsub_moved in Hin. apply in_flat_map in Hin as [[[r ds] fs] [Hw Hin]].
+  apply pwalk_tags in Hw as [Hr _].
+  apply in_app_iff in Hin as [Hin|Hin]; apply in_map_iff in Hin as [x [<- _]]; split; cbn [te_src te_dest];
+    try (destruct (pnonempty src); [|apply tag_ok_empty]); apply tag_ok_tag; cbn; congruence.
+Qed.
+
+Lemma tsub_created_tags w src t :
+  pv_tag src = w -> forall e, In e (tsub_created src t) -> tev_ok w e.
+Proof.
+  intros Hd e Hin. unfold tsub_created in Hin. apply in_flat_map in Hin as [[[r ds] fs] [Hw Hin]].
+  apply pwalk_tags in Hw as [Hr _].
+  apply in_app_iff in Hin as [Hin|Hin]; apply in_map_iff in Hin as [x [<- _]]; split; cbn [te_src te_dest];
+    try apply tag_ok_empty; apply tag_ok_tag; cbn; congruence.
+Qed.
+
+Lemma tmk_ok wp c a b :
+  (a = pempty \/ exists x, a = dec wp x) -> (b = pempty \/ exists x, b = dec wp x) ->
+  tev_ok (pv_tag wp) (tmk c a b).
+Proof.
+  intros [->|[x ->]] [->|[y ->]]; split; cbn [tmk te_src te_dest];
+    try apply tag_ok_empty; apply tag_ok_tag; apply dec_tag.
+Qed.
+
+Lemma tparent_ok wp x : tev_ok (pv_tag wp) (tparent_modified (dec wp x)).
+Proof.
+  split; cbn; [apply tag_ok_tag; cbn; apply dec_tag | apply tag_ok_empty].
+Qed.
+
+Theorem typed_emit_tags full rec wp content it :
+  forall e, In e (fst (typed_emit full rec wp content it)) -> tev_ok (pv_tag wp) e.
+Proof.
+  intros e Hin. destruct it as [x | f t]; cbn [typed_emit] in Hin.
+  - unfold temit_single in Hin.
+    repeat match type of Hin with
+           | context [if ?b then _ else _] => destruct b
+           end; cbn [fst In] in Hin;
+    repeat match type of Hin with
+           | _ \/ _ => destruct Hin as [Hin|Hin]
+           | False => contradiction
+           | _ = e => subst e; first [ apply tparent_ok | apply tmk_ok; eauto ]
+           | In e (tsub_created _ _) => eapply tsub_created_tags; [apply dec_tag | exact Hin]
+           end.
+  - unfold temit_pair in Hin. cbn [fst In] in Hin.
+    destruct Hin as [Hin|[Hin|[Hin|Hin]]]; try (subst e; first [ apply tparent_ok | apply tmk_ok; eauto ]).
+    destruct (is_directory (r_mask f) && rec); [|contradiction].
+    eapply tsub_moved_tags; [apply dec_tag | exact Hin].
+Qed.
+
+(* for the three spellings of the watch path: bytes stay bytes, str and pathlib.Path give str *)
+Corollary typed_emit_kind full rec k b content it :
+  forall e, In e (fst (typed_emit full rec (tagged (watch_tag k) b) content it)) ->
+    tag_ok (match k with WBytes => TBytes | _ => TStr end) (te_src e) /\
+    tag_ok (match k with WBytes => TBytes | _ => TStr end) (te_dest e).
+Proof.
+  intros e Hin. apply typed_emit_tags in Hin. destruct k; exact Hin.
+Qed.
+
+(* ---------------------------------------------------------------- polling side and agreement *)
+Lemma pjoins_tagged root rel : pjoins root rel = tagged (pv_tag root) (joins (pv_bytes root) rel).
+Proof.
+  revert root. induction rel as [|n rel IH]; intros root; cbn.
+  - now rewrite tagged_eta.
+  - unfold pjoins, joins in *. cbn [fold_left]. rewrite IH. reflexivity.
+Qed.
+
+Lemma pjoins_tag root rel : pv_tag (pjoins root rel) = pv_tag root.
+Proof. now rewrite pjoins_tagged. Qed.
+
+Lemma inotify_path_tagged wp rel : inotify_path wp rel = tagged (pv_tag wp) (joins (pv_bytes wp) rel).
+Proof. unfold inotify_path. apply decode_reader. Qed.
+
+Theorem inotify_polling_agree wp rel : inotify_path wp rel = pjoins wp rel.
+Proof. now rewrite inotify_path_tagged, pjoins_tagged. Qed.
+
+(* with a normalised root and valid names both are root ++ "/n1/n2..." with the watch's tag *)
+Theorem agree_rooted wp rel :
+  pv_bytes wp <> [] -> last_is_sep (pv_bytes wp) = false -> forallb valid_name rel = true ->
+  inotify_path wp rel = tagged (pv_tag wp) (pv_bytes wp ++ relsuffix rel) /\
+  pjoins wp rel = tagged (pv_tag wp) (pv_bytes wp ++ relsuffix rel).
+Proof.
+  intros H1 H2 H3. rewrite inotify_path_tagged, pjoins_tagged. rewrite joins_suffix by assumption. split; reflexivity.
+Qed.
+
+(* an event path of the typed emitter that names the entry [rel] (its bytes are root/rel) equals the polling path *)
+Theorem event_path_agree full rec wp content it e v rel :
+  In e (fst (typed_emit full rec wp content it)) -> (v = te_src e \/ v = te_dest e) ->
+  pv_bytes wp <> [] -> last_is_sep (pv_bytes wp) = false -> forallb valid_name rel = true ->
+  pv_bytes v = pv_bytes wp ++ relsuffix rel ->
+  v = pjoins wp rel.
+Proof.
+  intros Hin Hv H1 H2 H3 Hb. apply typed_emit_tags in Hin as [Hs Hd].
+  assert (Hne : pv_bytes v <> []).
+  { rewrite Hb. intros H. apply app_eq_nil in H as [H _]. contradiction. }
+  assert (Ht : pv_tag v = pv_tag wp) by (destruct Hv as [->| ->]; [now apply Hs | now apply Hd]).
+  rewrite pjoins_tagged, joins_suffix by assumption. rewrite <- Hb, <- Ht. symmetry. apply tagged_eta.
+Qed.
